@@ -27,7 +27,7 @@ Section Reach.
     /\ (flagcount w = 0 ->
         flagcount (g w) = 1 /\ just e fns d r (g w)
         /\ (f_canmap (g w) || f_caneach (g w) = true ->
-            f_isptr (g w) = ptrness (f_ty w) /\ f_isptr (h r) = ptrness (f_ty r))).
+            f_isptr (g w) = ptrness (f_ty w) /\ forall x, f_isptr (h (set_target x r)) = ptrness (f_ty r))).
 
   Inductive trans : st -> st -> Prop :=
   | T_to : forall s i j g h,
@@ -210,5 +210,125 @@ Section Reach.
     assert (C2 := reach_core _ _ R02).
     destruct (f_target (src_at s2 i)); [destruct (f_target (dst_at s2 j))|]; auto;
       (eapply reach_trans; [exact R02 | apply IH; [intros f Hf; apply Hin; right; auto | eapply in_range_core; eauto | eapply NM_core; eauto]]).
+  Qed.
+
+  (* ----------------------------------------------------------- makeSubMap *)
+  Lemma sub_map_reach s i j typ1 typ2 (is_slice : bool) :
+    in_range s i j -> NM s i j ->
+    (if is_slice then f_ty (src_at s i) = TSlice typ1 /\ f_ty (dst_at s j) = TSlice typ2
+     else f_ty (src_at s i) = typ1 /\ f_ty (dst_at s j) = typ2) ->
+    reach s (sub_map i j typ1 typ2 is_slice s).
+  Proof.
+    intros R N HT. unfold sub_map.
+    destruct (strip_ptr typ1) as (isptr1, t1) eqn:S1. destruct (strip_ptr typ2) as (isptr2, t2) eqn:S2.
+    destruct t1 as [| p1 n1 | | |]; try constructor. destruct p1; try constructor.
+    destruct t2 as [| p2 n2 | | |]; try constructor. destruct p2; try constructor.
+    set (s1 := if dst_free s j
+               then to_claim i j (fun f => set_isptr isptr2 (set_submap is_slice (TNamed PDst n2) f)) (set_isptr isptr1) s
+               else s).
+    assert (R1 : reach s s1).
+    { unfold s1. destruct (dst_free s j) eqn:C; [|constructor].
+      apply reach_one. constructor; auto.
+      apply (claim_ok_submap true (src_at s i) (dst_at s j) is_slice isptr1 isptr2 n1 n2).
+      destruct is_slice.
+      - destruct HT as (E1 & E2). exists typ1, typ2. auto.
+      - destruct HT as (E1 & E2). rewrite E1, E2. auto. }
+    assert (C1 := reach_core _ _ R1). destruct (ty_core _ _ C1) as (TS & TD).
+    destruct (src_free s1 i) eqn:C; [|exact R1].
+    eapply reach_trans; [exact R1|]. apply reach_one. constructor; auto.
+    - eapply in_range_core; eauto.
+    - eapply NM_core; eauto.
+    - apply (claim_ok_submap false (dst_at s1 j) (src_at s1 i) is_slice isptr2 isptr1 n1 n2).
+      rewrite TS, TD. destruct is_slice.
+      + destruct HT as (E1 & E2). exists typ1, typ2. auto.
+      + destruct HT as (E1 & E2). rewrite E1, E2. auto.
+  Qed.
+
+  Lemma sub_list_map_reach s i j : in_range s i j -> NM s i j -> reach s (sub_list_map i j s).
+  Proof.
+    intros R N. unfold sub_list_map.
+    destruct (f_ty (src_at s i)) eqn:E1; try constructor.
+    destruct (f_ty (dst_at s j)) eqn:E2; try constructor.
+    apply sub_map_reach; auto.
+  Qed.
+
+  Lemma step_mismatch_reach s i j : in_range s i j -> reach s (step_mismatch tm ic fns i j s).
+  Proof.
+    intros R. unfold step_mismatch.
+    destruct (can_name_match (src_at s i) (dst_at s j) tm ic) eqn:N; cbn [negb]; [|constructor].
+    assert (R1 : reach s (func_loop fns i j s)) by (apply func_loop_reach; auto).
+    set (s1 := func_loop fns i j s) in *. assert (C1 := reach_core _ _ R1).
+    assert (R2 : reach s1 (sub_map i j (f_ty (src_at s1 i)) (f_ty (dst_at s1 j)) false s1)).
+    { apply sub_map_reach; auto. - eapply in_range_core; eauto. - eapply NM_core; eauto. }
+    set (s2 := sub_map i j (f_ty (src_at s1 i)) (f_ty (dst_at s1 j)) false s1) in *.
+    assert (R02 : reach s s2) by (eapply reach_trans; eauto). assert (C2 := reach_core _ _ R02).
+    eapply reach_trans; [exact R02|]. apply sub_list_map_reach.
+    - eapply in_range_core; eauto.
+    - eapply NM_core; eauto.
+  Qed.
+
+  Lemma step_match_reach s i j : in_range s i j -> reach s (step_match e tm ic i j s).
+  Proof.
+    intros R. unfold step_match.
+    destruct (can_name_match (src_at s i) (dst_at s j) tm ic) eqn:N; cbn [negb]; [|constructor].
+    set (t1 := f_ty (src_at s i)). set (t2 := f_ty (dst_at s j)).
+    destruct (match_type e t1 t2) as (same, conv) eqn:M1.
+    destruct (match_type e t2 t1) as (same', convback) eqn:M2.
+    set (s1 := if dst_free s j && (same || conv)
+               then to_claim i j (if same then set_canassign else set_isconv t2) (fun f => f) s else s).
+    assert (R1 : reach s s1).
+    { unfold s1. destruct (dst_free s j && (same || conv)) eqn:C; [|constructor].
+      apply andb_true_iff in C. destruct C as (C1 & C2).
+      apply reach_one. constructor; auto.
+      destruct same eqn:S.
+      - apply claim_ok_assign. fold t1 t2. rewrite <- (match_type_same _ _ _ _ _ M1). reflexivity.
+      - simpl in C2. subst conv. destruct (match_type_conv _ _ _ _ _ M1 eq_refl eq_refl) as (a & b & c).
+        apply claim_ok_conv; auto. }
+    assert (C1 := reach_core _ _ R1). destruct (ty_core _ _ C1) as (TS & TD).
+    destruct (src_free s1 i && (same || convback)) eqn:C; [|exact R1].
+    apply andb_true_iff in C. destruct C as (C1' & C2).
+    eapply reach_trans; [exact R1|]. apply reach_one. constructor; auto.
+    - eapply in_range_core; eauto.
+    - eapply NM_core; eauto.
+    - destruct same eqn:S.
+      + apply claim_ok_assign. rewrite TS, TD. fold t1 t2. rewrite type_equals_sym.
+        rewrite <- (match_type_same _ _ _ _ _ M1). reflexivity.
+      + simpl in C2. subst convback.
+        assert (S' : same' = false).
+        { rewrite (match_type_same _ _ _ _ _ M2), type_equals_sym, <- (match_type_same _ _ _ _ _ M1). reflexivity. }
+        destruct (match_type_conv _ _ _ _ _ M2 S' eq_refl) as (a & b & c).
+        assert (X : set_isconv t1 = set_isconv (f_ty (src_at s1 i))) by (rewrite TS; reflexivity).
+        rewrite X. apply claim_ok_conv; rewrite ?TS, ?TD; auto.
+  Qed.
+
+  Lemma double_loop_reach step :
+    (forall s i j, in_range s i j -> reach s (step i j s)) -> forall s, reach s (double_loop step s).
+  Proof.
+    intros Hstep s. unfold double_loop.
+    assert (Inner : forall (js : list nat) s0 i, i < length (s_src s0) ->
+              (forall j, In j js -> j < length (s_dst s0)) ->
+              reach s0 (fold_left (fun s j => step i j s) js s0)).
+    { induction js as [|j js IH]; intros s0 i Hi Hjs; simpl; [constructor|].
+      assert (R1 : reach s0 (step i j s0)). { apply Hstep. split; auto. apply Hjs. left; auto. }
+      destruct (reach_core _ _ R1) as (a & b & _).
+      eapply reach_trans; [exact R1|]. apply IH.
+      - rewrite a. auto.
+      - intros k Hk. rewrite b. apply Hjs. right; auto. }
+    assert (Outer : forall (is : list nat) s0, (forall i, In i is -> i < length (s_src s0)) ->
+              reach s0 (fold_left (fun s i => fold_left (fun s j => step i j s) (seq 0 (length (s_dst s))) s) is s0)).
+    { induction is as [|i is IH]; intros s0 His; simpl; [constructor|].
+      assert (R1 : reach s0 (fold_left (fun s j => step i j s) (seq 0 (length (s_dst s0))) s0)).
+      { apply Inner. - apply His. left; auto. - intros j Hj. apply in_seq in Hj. lia. }
+      destruct (reach_core _ _ R1) as (a & _).
+      eapply reach_trans; [exact R1|]. apply IH. intros k Hk. rewrite a. apply His. right; auto. }
+    apply Outer. intros i Hi. apply in_seq in Hi. lia.
+  Qed.
+
+  (* the two passes only make guarded claims *)
+  Theorem passes_reach s : reach s (run_passes e tm ic fns s).
+  Proof.
+    unfold run_passes. eapply reach_trans.
+    - apply (double_loop_reach (step_mismatch tm ic fns)). intros; apply step_mismatch_reach; auto.
+    - apply (double_loop_reach (step_match e tm ic)). intros; apply step_match_reach; auto.
   Qed.
 End Reach.
